@@ -638,6 +638,11 @@ class Engine:
 
     def eq(self, a, b):
         """z3 Bool / python bool for Python a == b."""
+        h = self.builtins.get('__eq__')
+        if h is not None:
+            r = h(self, a, b)
+            if r is not None:
+                return r
         if isinstance(a, VOpt) or isinstance(b, VOpt):
             if isinstance(a, VNone):
                 return b.isnone
